@@ -64,8 +64,12 @@ class G:
     def probe_many(self, bodies, workers=16):
         """bodies: list of (key, body). Returns dict key -> (accepted, diag, path)."""
         out = {}
+        by_body = {}
+        for k, b in bodies:
+            by_body.setdefault(b, []).append(k)  # identical programs are compiled once
         with cf.ThreadPoolExecutor(max_workers=workers) as ex:
-            futs = {ex.submit(self.probe, b): k for k, b in bodies}
+            futs = {ex.submit(self.probe, b): b for b in by_body}
             for f in cf.as_completed(futs):
-                out[futs[f]] = f.result()
+                for k in by_body[futs[f]]:
+                    out[k] = f.result()
         return out
